@@ -212,7 +212,17 @@ def check_compilation(acc, c, ref, renders, main_key, file_of_macro, rel_of, inp
     if missing or extra:
         acc.violation(gsig("position-marks-differ", "not-recorded" if missing else "recorded-but-nowhere"),
                       {"emitted_but_not_recorded": sorted(missing)[:4], "recorded_but_not_emitted": sorted(extra)[:4]}, inp)
-    elif not macro_arg_marks and not sm.get_position_marks__macros() and not file_of_macro:
+    elif sm.get_position_marks__macros():
+        # marks written in macro bodies (not handed in as arguments): recorded once per emitted parameter, expansion by expansion
+        from collections import Counter
+        ce, cr = Counter(emitted_marks), Counter(rec)
+        args = set(macro_arg_marks)
+        for mk in sorted({(t[2].name, t[2].x_offset, t[2].y_offset, t[2].x_relative, t[2].y_relative) for t in sm.get_position_marks__macros()} - args):
+            acc.count("macro_body_mark_counts_compared")
+            if ce[mk] != cr[mk]:
+                acc.violation(gsig("position-marks-differ", "count-of-a-macro-body-mark"), {"mark": mk, "emitted": ce[mk], "recorded": cr[mk]}, inp)
+                break
+    elif not macro_arg_marks and not file_of_macro:
         # no macro took part: every literal is recorded once per emitted parameter (the same mark may be written several times)
         from collections import Counter
         acc.count("position_mark_multisets_compared")
